@@ -2,6 +2,7 @@
 // libcoap server (UDP + TCP + WebSocket endpoints) or UDP client on the simulated network; a scripted peer first drives the
 // endpoint into a protocol state with valid traffic, then delivers hostile inputs; sanitizers + canary + "malformed is never delivered".
 #include "../sim/helpers.h"
+#include <algorithm>
 #include <openssl/evp.h>
 #include <openssl/sha.h>
 using namespace verif;
@@ -494,6 +495,9 @@ int verif_case(const uint8_t *tape, size_t tlen, Info *info) {
       hist += hb;
       info->label(ws ? (prefix == 0 ? "state:ws-before-handshake" : prefix == 1 ? "state:ws-established" : "state:ws-mid-handshake") : (prefix == 0 ? "state:tcp-before-csm" : "state:tcp-established"));
       unsigned n = t.range(1, 10);
+      std::vector<uint8_t> rev(tape, tape + tlen);
+      std::reverse(rev.begin(), rev.end());
+      Tape tb(rev.data(), rev.size());
       for (unsigned i = 0; i < n && !w.hit_cap; i++) {
         if (sp->peer_closed) {
           // libcoap closed the connection (a legitimate reaction): carry on with a new, established one
@@ -507,6 +511,27 @@ int verif_case(const uint8_t *tape, size_t tlen, Info *info) {
           info->label("connection-closed-by-libcoap");
         }
         size_t kind = t.pick({3, 8, 2, 1, 2});
+        if (ws && tb.chance(56)) {
+          // (drawn from the END of the tape) a frame that announces more than libcoap's receive buffer takes - 16 bit and 64 bit length
+          // forms, up to the top bit set - with part or all of the announced payload right behind the header, in one write or cut
+          static const uint64_t N[] = {1473, 1600, 3000, 5000, 65535, 65536, 70000, 0x100000000ull, 0x7fffffffffffffffull, 0x8000000000000000ull, 0xffffffffffffffffull};
+          uint64_t n = N[tb.range(0, 10)];
+          std::vector<uint8_t> bytes = {(uint8_t)(0x80 | (tb.chance(200) ? 2 : tb.range(0, 15)))};
+          bool masked = tb.chance(230);
+          if (n < 65536) { bytes.push_back((uint8_t)((masked ? 0x80 : 0) | 126)); bytes.push_back((uint8_t)(n >> 8)); bytes.push_back((uint8_t)n); }
+          else { bytes.push_back((uint8_t)((masked ? 0x80 : 0) | 127)); for (int sh = 56; sh >= 0; sh -= 8) bytes.push_back((uint8_t)(n >> sh)); }
+          if (masked) for (int j = 0; j < 4; j++) bytes.push_back(tb.u8());
+          size_t fill = tb.pick({1, 3}) ? (size_t)std::min<uint64_t>(n, tb.pick({1, 1}) ? tb.range(1, 300) : tb.range(300, 6000)) : 0;
+          bytes.insert(bytes.end(), fill, (uint8_t)'A');
+          hostile_count++;
+          nontrivial = true;
+          snprintf(hb, sizeof hb, "oversized-frame(len=%llu,+%zuB) ", (unsigned long long)n, fill);
+          hist += hb;
+          info->label("ws-oversized-frame");
+          if (tb.flag()) { w.stream_send(sp, bytes, {bytes.size()}); w.run(w.now + 30, 60000); }
+          else send_cut(bytes, &tb);
+          continue;
+        }
         if (kind == 3) { static const uint32_t J[] = {0, 1000, 100000, 400000}; uint32_t ms = J[t.range(0, 3)]; w.run(w.now + ms, 60000); snprintf(hb, sizeof hb, "jump(%ums) ", ms); hist += hb; continue; }
         std::vector<uint8_t> bytes;
         if (kind == 0) bytes = t.blob(t.pick({6, 2, 1}) == 0 ? t.range(1, 40) : t.pick({1, 1}) ? t.range(40, 300) : t.range(300, 1600));
